@@ -33,7 +33,7 @@ def run_job(job):
     events = []
     try:
         shutil.rmtree(base, ignore_errors=True)
-        w = W.World(base, clock_seed=job.get("clock_seed", 0))
+        w = W.World(base, clock_seed=job.get("clock_seed", 0), pid_base=job.get("pid_base", 1000))
         for op in job["ops"]:
             k = op["op"]
             if k == "invoke":
